@@ -105,6 +105,12 @@ def check(ctx):
                                     "a failed %s ends get_client with an error (the file is not skipped)" % role, [GC, "skip-on-" + role])
                 if not try_edges(gb, [c.dest["l"]]):
                     ctx.fail(R3, c.where(), "the result of %s is not tested" % name, [GC, "untested-" + role])
+        # each file is parsed on its own: the buffer it is read into is created (or cleared) inside the loop — a buffer shared by
+        # the iterations keeps growing and from_pem only decodes its first certificate, i.e. every later root is ignored
+        for c in [x for x in gb.calls_to("std::io::Read::read_to_end", "std::io::Read::read_to_string") if x.bb in scc]:
+            bsl = arg_origins(c, 1)
+            fresh = [x for x in bsl.calls if (x.name or "").rsplit("::", 1)[-1] in ("new", "with_capacity", "clear", "truncate", "default") and x.bb in scc]
+            ctx.require(R3, bool(fresh), c.where(), "the read buffer is created or cleared for every root file", [GC, "shared-read-buffer"])
         for a in adds:
             ctx.require(R3, a.bb in scc, a.where(), "add_root_certificate is called for each file", [GC, "add-in-loop"])
             sl = arg_origins(a, 1)
@@ -157,6 +163,37 @@ def check(ctx):
         ctx.require(R4, bool(cs_) and any(c.bb in reach for c in cs_), cs_[0].where() if cs_ else "%s:%s" % (tg.file, tg.line),
                     "the %s roots are added also when the %s list is present (union of the sources, not a fallback)" % (nm, "endpoint's" if nm == "global" else "global"),
                     ["config::Endpoint::to_generic", "roots-fallback", nm])
+    # ... and, whenever the function can be EVALUATED on concrete lists (abstract interpretation with lists, iterator chains and Option
+    # combinators), the list handed to Endpoint::new is exactly command line + endpoint + global for all 12 presence combinations
+    from ..absint import NONE, Val, marker, ok, run, some, struct_val, vbool, vstr
+    ECFG, CCFG, GCFG = "acmed::config::Endpoint", "acmed::config::Config", "acmed::config::GlobalOptions"
+
+    def lst(*xs):
+        return Val("list", [vstr(x) for x in xs])
+
+    def ep_model(cs_, args_):
+        if cs_.is_("acmed::endpoint::Endpoint::new"):
+            return ok(marker("EP"))
+        return None
+    n_eval = 0
+    for cli in (True, False):
+        for ep in (True, False):
+            for gl in ("set", "unset", "absent"):
+                selfv = struct_val(prog, ECFG, {"name": vstr("n"), "url": vstr("u"), "tos_agreed": vbool(True), "rate_limits": Val("list", []),
+                                                "root_certificates": some(lst("E1", "E2")) if ep else NONE})
+                g = NONE if gl == "absent" else some(struct_val(prog, GCFG, {"root_certificates": some(lst("G1")) if gl == "set" else NONE}))
+                r = run(tg, {1: Val("ref", selfv), 2: Val("ref", struct_val(prog, CCFG, {"global": g})), 3: Val("ref", Val("list", [Val("ref", vstr("C1"))] if cli else []))},
+                        ep_model, max_steps=60000)
+                a_ = [x for c_, x, res_ in r.calls if c_.is_("acmed::endpoint::Endpoint::new")]
+                got = a_[0][4].deref() if a_ and len(a_[0]) > 4 else None
+                if r.kind != "return" or got is None or got.k != "list" or not all(x.deref().k == "str" for x in got.v):
+                    continue            # not evaluable in this shape: the structural rules above decide
+                n_eval += 1
+                want_l = sorted((["C1"] if cli else []) + (["E1", "E2"] if ep else []) + (["G1"] if gl == "set" else []))
+                have = sorted(x.deref().v for x in got.v)
+                ctx.require(R4, have == want_l, "%s:%s" % (tg.file, tg.line), "roots for (command line %s, endpoint %s, global %s) = %s (expected %s)" % (cli, ep, gl, have, want_l),
+                            ["config::Endpoint::to_generic", "roots-table", str(cli), str(ep), gl])
+    ctx.notes.append("Endpoint::to_generic root list evaluated on %d/12 presence combinations" % n_eval)
     en = prog.must_body("acmed::endpoint::Endpoint::new")
     for i, st in agg_assigns(en, "acmed::endpoint::Endpoint"):
         idx = st["rv"]["fields"].index("root_certificates")
